@@ -35,7 +35,7 @@ subprocess.run("git -C /repo worktree remove --force %s; rm -rf %s; git -C /repo
 rc, out = sh("git -C /repo worktree add --detach %s HEAD" % wt)
 try:
     demo = meta.get("demo", {})
-    copy_to = demo.get("copy_to", "standalone")
+    copy_to = (demo.get("copy_to", "standalone") or "standalone").split()[0].rstrip(",;")
     demos = [f for f in os.listdir(src) if f.startswith("demo")]
     run = demo.get("run", "")
     def place():
